@@ -84,10 +84,371 @@ def check_C18(tier, seed):
                       "carry, smallest-normal and overflow cases must be satisfiable.")
 
 
+def check_C14(tier, seed):
+    rp = Report("C14", tier, seed)
+    rp.trusted.update(BASE_TRUST)
+    G.run_tables(rp)
+    # tables are consumed by the algorithms: a wrong entry must also break the moderate-path contract for its q
+    if tier == "thorough":
+        G.run_lemire(rp, "quick", seed, focus="tables")
+    rp.bounds += ["every entry of every table (the index is the free variable of one ground query per table): 651 x 128-bit "
+                  "Eisel-Lemire significands, 28 + 20 small integer powers, the used prefix (11 / 23) of the float power tables, "
+                  "the 5-limb 5^135, 10 + 66 + 10 Bellerophon entries with the binary exponents the real get_small/get_large derive",
+                  "values are the bytes / literals in rustc's MIR dump of the current tree, per configuration (default, compact)"]
+    rp.assumptions += ["on-demand powers of the compact/no_std configurations (u64::pow, std powf via the system libm, the bundled "
+                       "libm pow) are NOT decided here: std's powf is FFI (outside the technique); stated in DESIGN.md",
+                       "powers of five/ten on the specification side are built by a multiplication chain inside the SMT script"]
+    return rp.finish("other", "Ground SMT queries over the compiled table constants with the index symbolic: unsat means no index "
+                              "violates the defining inequalities (truncation / normalisation / exactness).")
+
+
+
+COMPOSITION = ("Compositional (DESIGN.md section 5): each stage's contract is decided by a solver over the real code "
+               "(MIR->SMT for the scalar kernels, Kani/CBMC for loops/memory, ground SMT for tables); the step from the "
+               "contracts to the end-to-end statement is a written argument and is part of the trusted base.")
+COMP_TRUST = ["composition argument of DESIGN.md section 5 (contracts => property)",
+              "IEEE-754 correct rounding of one hardware multiply/divide on exact operands (O-IEEE, not decided)"]
+
+
+def _classes_subset(fmt, tier, seed, frac):
+    import random
+    cl = G.lemire_classes(fmt, tier, seed)
+    if tier == "thorough":
+        return cl
+    rng = random.Random(seed * 977 + len(cl))
+    keep = [c for c in cl if c[1] == 0 or rng.random() < frac]
+    return keep
+
+
+def _correct_rounding(pid, fmt, tier, seed):
+    rp = Report(pid, tier, seed)
+    rp.trusted.update(BASE_TRUST + KANI_TRUST + COMP_TRUST)
+    G.validate_translator(rp, "default", seed, 200)
+    G.run_lemire(rp, tier, seed, fmts=(fmt,), classes=None if tier == "thorough" else {fmt: _classes_subset(fmt, tier, seed, 0.35)})
+    bc = G.bell_classes(fmt, tier, seed)
+    G.run_bell(rp, tier, seed, fmts=(fmt,), classes={fmt: bc if tier == "thorough" else bc[::2]})
+    G.run_fast_path(rp, tier, seed, fmts=(fmt,))
+    G.run_tables(rp)
+    G.run_sticky(rp)
+    pre = "c18_%s" % fmt
+    G.run_kani_core(rp, tier, seed, [pre, "c17_%s" % fmt, "c18_masks"])
+    G.run_kani_slow(rp, tier, seed, fmts=(fmt,))
+    G.run_kani_parse(rp, tier, seed, ["pn", "pm"])
+    if tier == "thorough":
+        G.run_kani_vec(rp, "quick", seed, ["C12"])
+    rp.bounds += [
+        "moderate path (%s): every significand of each enumerated (q, leading-zero) class; quick = seeded subset incl. lz=0 for every q" % fmt,
+        "fast path: every decimal exponent in the dispatch window, all (w, truncated)",
+        "digit loops: shapes up to 24 digits (parse_number) / 45 digits (parse_mantissa, with `max` as a parameter so that the "
+        "cut position relative to chunk boundaries is covered); longer strings are outside the solver claim",
+        "slow-path glue: big-integer operations replaced by trace stubs (their exactness: C12), exponents |e| <= 400",
+        "feature configurations: default (Eisel-Lemire) and compact (Bellerophon) moderate paths; vector back-ends: C12/C13",
+    ]
+    rp.assumptions += ["O-IEEE trusted", "strings longer than the harness shapes are argued by uniformity of the digit loops, not decided"]
+    return rp.finish("other", COMPOSITION)
+
+
+def check_C01(tier, seed):
+    return _correct_rounding("C01", "f64", tier, seed)
+
+
+def check_C02(tier, seed):
+    return _correct_rounding("C02", "f32", tier, seed)
+
+
+def check_C03(tier, seed):
+    rp = Report("C03", tier, seed)
+    rp.trusted.update(BASE_TRUST + KANI_TRUST + COMP_TRUST)
+    for fmt in ("f64", "f32"):
+        G.run_lemire(rp, tier, seed, fmts=(fmt,), classes=None if tier == "thorough" else {fmt: _classes_subset(fmt, tier, seed, 0.2)})
+    G.run_fast_path(rp, tier, seed)
+    G.run_sticky(rp)
+    G.run_tables(rp, configs=("default",))
+    G.run_kani_parse(rp, tier, seed, ["pm"])
+    rp.bounds += ["renderings are characterised, not computed: shortest / 17(9)-digit renderings w*10^q of x satisfy RN(w*10^q) = x by "
+                  "definition, so the round trip is exactly the correct-rounding contract of the moderate/fast path for <= 17-digit w; "
+                  "exact expansions (<= 767 / 112 digits) stay below MAX_DIGITS (sticky lemma) and go through the digit-loop contracts"]
+    rp.assumptions += ["derived property: evidence = correct-rounding obligations (C01/C02) restricted to the renderings' shapes"]
+    return rp.finish("other", COMPOSITION)
+
+
+def check_C06(tier, seed):
+    rp = Report("C06", tier, seed)
+    rp.trusted.update(BASE_TRUST + KANI_TRUST + COMP_TRUST)
+    G.run_kani_parse(rp, tier, seed, ["pn", "pm"])
+    G.run_sticky(rp)
+    # truncated significands in the moderate path: lemire glue (w vs w+1), compute_error, Bellerophon truncated
+    mp = C.mir_path("default", False)
+    from . import mirjobs as J, pool
+    import random
+    rng = random.Random(seed + 5)
+    jobs = [(J.job_lemire_glue, (mp, f, 30)) for f in ("f64", "f32")]
+    for f in ("f64", "f32"):
+        qlo, qhi = G.table_range(f)
+        qs = range(qlo, qhi + 1) if tier == "thorough" else sorted(rng.sample(range(qlo, qhi + 1), 60 if f == "f64" else 30))
+        for q in qs:
+            for lz in (range(5) if tier == "thorough" else [rng.randrange(5)]):
+                jobs.append((J.job_lemire_ce, (mp, f, q, lz, 30, seed)))
+    res = pool.run_jobs(jobs)
+    G.consume(rp, res, "default", "lemire-truncated")
+    import itertools
+    bc = {f: [c for c in G.bell_classes(f, "thorough" if tier == "thorough" else "quick", seed) if c[2] == 1] for f in ("f64", "f32")}
+    if tier == "quick":
+        bc = {f: v[:120] for f, v in bc.items()}
+    G.run_bell(rp, tier, seed, classes=bc)
+    rp.bounds += ["parse_number: the 19-digit cut, flag and exponent correction for every digit value at shapes up to 24 digits",
+                  "parse_mantissa: the MAX_DIGITS cut with `max` in 1..45 as a parameter (every residue of the cut position modulo the "
+                  "19-digit chunk), sticky digit iff a later digit is non-zero, trailing zeros never sticky",
+                  "sticky lemma: MAX_DIGITS (read from the MIR) exceeds the digit count of every rounding midpoint",
+                  "truncated significand in the moderate path: w and w+1 agree (Lemire wrapper), Bellerophon two-pass, decline contract on [w, w+1]"]
+    return rp.finish("other", COMPOSITION)
+
+
+def check_C07(tier, seed):
+    rp = Report("C07", tier, seed)
+    rp.trusted.update(BASE_TRUST + KANI_TRUST + COMP_TRUST)
+    cls = {f: G.lemire_classes(f, tier, seed, focus="boundary") for f in ("f64", "f32")}
+    if tier == "quick":
+        import random
+        rng = random.Random(seed + 3)
+        for f in cls:
+            F = G.specs.FORMATS[f]
+            def near_edge(c):
+                approx = (63 - c[1]) + c[0] * 3.321928094887362
+                lo1, hi1 = 1 - F["bias"] - 5, 1 - F["bias"] + F["p1"] + 2
+                emax = F["inf"] - 1 - F["bias"] + F["p1"] + 1
+                return lo1 <= approx <= hi1 or emax - 3 <= approx <= emax + 2
+            edge = [c for c in cls[f] if near_edge(c)]
+            cls[f] = sorted(set(rng.sample(edge, min(len(edge), 500 if f == "f64" else 250)) +
+                                [c for c in cls[f] if c[1] == 0 and (c[0] < -300 or c[0] > 290 or f == "f32")]))
+    G.run_lemire(rp, tier, seed, classes=cls)
+    bc = {}
+    for f in ("f64", "f32"):
+        allc = G.bell_classes(f, "thorough", seed)
+        F = G.specs.FORMATS[f]
+        def edge(c):
+            approx = (63 - c[1]) + c[0] * 3.321928094887362
+            return approx < 1 - F["bias"] + F["p1"] + 3 or approx > F["inf"] - F["bias"] + F["p1"] - 4 or abs(c[0]) > 330
+        e = [c for c in allc if edge(c)]
+        bc[f] = e if tier == "thorough" else e[::7]
+    G.run_bell(rp, tier, seed, classes=bc)
+    G.run_kani_core(rp, tier, seed, ["c18_"])
+    G.run_kani_parse(rp, tier, seed, ["pn"])
+    rp.bounds += ["every (q, lz) class whose value can be subnormal, zero, in the top binade or infinite (quick: a seeded 500/250 of them)",
+                  "early outs by decimal exponent alone: symbolic-q queries (q < smallest, q > largest, zero significand) + ground threshold facts",
+                  "round primitive over its whole domain; exponent saturation of parse_number over the full i32 range (Kani)"]
+    return rp.finish("other", COMPOSITION)
+
+
+def check_C09(tier, seed):
+    rp = Report("C09", tier, seed)
+    rp.trusted.update(BASE_TRUST + KANI_TRUST + COMP_TRUST + ["monotonicity of RN (mathematical fact)"])
+    for fmt in ("f64", "f32"):
+        G.run_lemire(rp, tier, seed, fmts=(fmt,), classes=None if tier == "thorough" else {fmt: _classes_subset(fmt, tier, seed, 0.3)})
+    G.run_fast_path(rp, tier, seed)
+    G.run_kani_parse(rp, tier, seed, ["pn"])
+    bc = {f: G.bell_classes(f, tier, seed)[::3] for f in ("f64", "f32")}
+    G.run_bell(rp, tier, seed, classes=bc)
+    rp.bounds += ["each algorithm returns RN of the same exact value on BOTH sides of every switch-over: the moderate path is proved for all w "
+                  "(not only those the dispatcher sends there), the fast path for its whole window, so every seam is covered by two "
+                  "contracts that both equal RN; RN is monotone"]
+    rp.assumptions += ["derived from the correct-rounding contracts; no separate two-input query (each side is proved equal to RN)"]
+    return rp.finish("other", COMPOSITION)
+
+
+def check_C10(tier, seed):
+    rp = Report("C10", tier, seed)
+    rp.trusted.update(KANI_TRUST + COMP_TRUST)
+    G.run_kani_parse(rp, tier, seed, ["pn_rel", "pm", "pn"])
+    G.run_kani_slow(rp, tier, seed)
+    rp.bounds += ["re-splitting: the same digit array split at two points with compensated exponent gives identical (mantissa, exponent, flag) "
+                  "- shapes up to 23 digits; appended fraction zeros: value preserved (shapes listed in the evidence)",
+                  "big-integer stage: the comparison exponent equals e - (number of fraction digits) for every split (slow_dispatch)"]
+    return rp.finish("other", COMPOSITION)
+
+
+def check_C12(tier, seed):
+    rp = Report("C12", tier, seed)
+    rp.trusted.update(KANI_TRUST)
+    G.run_kani_vec(rp, tier, seed, ["C12"])
+    if tier == "thorough":
+        G.run_kani_vec(rp, "quick", seed, ["C12"], config="alloc")
+    rp.bounds += ["lengths enumerated (quick: 0-3, one seeded, 61, 62; thorough: 0..62), ALL limb values symbolic at each length",
+                  "small_mul at every length with the 64x64 multiplier abstracted by a call-log stub (arbitrary relation => covers the real "
+                  "one); real multiplier at length 0 (quick) / 0-2 (thorough); long_mul only on tiny shapes in thorough (CBMC cost)",
+                  "pow: decomposition into 5^135 / 5^27 / 5^c factors for exp <= 2048 with the multiplications replaced by trace stubs",
+                  "32-bit-limb targets not covered"]
+    return rp.finish("other", "Kani/CBMC differential harnesses against textbook natural-number arithmetic (u128 carries): shape concrete, contents symbolic.")
+
+
+def check_C13(tier, seed):
+    rp = Report("C13", tier, seed)
+    rp.trusted.update(KANI_TRUST)
+    G.run_kani_vec(rp, tier, seed, ["C13"])
+    if tier == "thorough":
+        G.run_kani_vec(rp, "quick", seed, ["C13"], config="alloc")
+    rp.bounds += ["inductive step: one operation from an arbitrary valid state (every length enumerated as for C12, contents symbolic) "
+                  "covers histories of any length, because every valid state is constructible by pushes",
+                  "HeapVec (feature alloc): thorough tier only, quick length set"]
+    return rp.finish("other", "Kani/CBMC: each vector operation from every valid state agrees with a reference sequence; failure leaves contents unchanged.")
+
+
+def check_C16(tier, seed):
+    rp = Report("C16", tier, seed)
+    rp.trusted.update(KANI_TRUST)
+    G.run_kani_parse(rp, tier, seed, ["pn_iter", "pm"])
+    G.run_kani_vec(rp, tier, seed, ["C13"]) if tier == "thorough" else None
+    # stale storage: large_add_from / resize read only initialised limbs (uninitialised memory is nondeterministic in CBMC)
+    from . import kani as K, vecgen
+    src, names = vecgen.generate(tier, seed)
+    K.set_generated("vec", {"src/instances.rs": src})
+    hs = [h for h in names["C12"] if "large_add_from" in h or "shl_limbs" in h][:24] + [h for h in names["C13"] if "resize" in h][:12]
+    G.run_kani(rp, "vec", "default", hs, "stale-storage", timeout=600, lanes=12, extra=("-Z", "stubbing"))
+    # shared mutable state: none outside the x87 control-word module (syntactic scan of the MIR, reported as assumption)
+    import re
+    txt = C.mir_dump("default", False)
+    statics = [m for m in re.findall(r"(?m)^static (mut )?([\w:]+)", txt)]
+    muts = [n for (m, n) in statics if m]
+    rp.extra["static_items"] = [n for (_m, n) in statics]
+    if muts:
+        rp.error("mutable statics present: %r" % muts)
+    rp.bounds += ["iterator shapes: slice iterators, a custom cursor with default size_hint, chain at a symbolic split, filter removing a sentinel",
+                  "interleavings of concurrent callers: NOT addressed by this technique (Kani does not model threads); the only statement made "
+                  "is syntactic - the MIR contains no `static mut` and no interior-mutable static"]
+    rp.assumptions += ["thread schedules outside the technique"]
+    return rp.finish("other", "Kani: the same bytes through differently shaped iterators give the same Number / call trace; uninitialised vector "
+                              "storage is nondeterministic in CBMC, so reading a stale slot fails the contents comparison.")
+
+
+def check_C19(tier, seed):
+    rp = Report("C19", tier, seed)
+    rp.trusted.update(KANI_TRUST)
+    G.run_kani_frontend(rp, tier, seed)
+    rp.bounds += ["every byte string of length 0..6 (quick) / 0..10 (thorough), all 256 byte values per position; parse_exponent with up to 12 digits",
+                  "the library call is replaced by a logger (what reaches the library and what is returned is checked; the value itself is C01/C02)",
+                  "front-end sources are copied from /repo's examples/simple.rs and tests/integration_tests.rs at run time (mechanically trimmed: "
+                  "crate attributes, `extern crate`, main/tests removed; two functions made pub)"]
+    return rp.finish("other", "Kani: the shipped front-end against an independent reference scanner for all byte strings of the stated lengths.")
+
+
+
+def check_C04(tier, seed):
+    """No panic for valid input: release and debug-assertion builds."""
+    rp = Report("C04", tier, seed)
+    rp.trusted.update(BASE_TRUST + KANI_TRUST + COMP_TRUST)
+    # (a) scalar kernels on the MIR compiled with debug assertions + overflow checks: every rustc-inserted assert and
+    #     every debug_assert! is an explicit terminator; a reachable one is a violation
+    from . import mirjobs as J, pool
+    import random
+    rng = random.Random(seed + 41)
+    mpc = C.mir_path("default", True)
+    jobs = []
+    for fmt in ("f64", "f32"):
+        cl = G.lemire_classes(fmt, tier, seed, focus="boundary")
+        if tier == "quick":
+            cl = [c for c in cl if c[1] == 0 or rng.random() < 0.15]
+        for (q, lz) in cl:
+            jobs.append((J.job_lemire_cf, (mpc, fmt, q, lz, 20 if tier == "quick" else 60, seed, True)))
+        jobs.append((J.job_lemire_early, (mpc, fmt, 30)))
+    res = pool.run_jobs(jobs, progress=2000)
+    G.consume(rp, res, "default", "lemire[debug-assertions]")
+    mpb = C.mir_path("compact", True)
+    bjobs = []
+    for fmt in ("f64", "f32"):
+        bc = G.bell_classes(fmt, tier, seed)
+        if tier == "quick":
+            bc = bc[::3]
+        for (q, lz, many) in bc:
+            bjobs.append((J.job_bell, (mpb, fmt, q, lz, many, 20 if tier == "quick" else 60, seed, 10 ** 19 - 1, True)))
+    res = pool.run_jobs(bjobs, progress=1000)
+    G.consume(rp, res, "compact", "bellerophon[debug-assertions]")
+    # (b) loops / memory: Kani models the dev profile (overflow checks and debug assertions on): any reachable panic fails
+    G.run_kani_parse(rp, tier, seed, ["pn", "pm"])
+    G.run_kani_core(rp, tier, seed, ["c18_", "c17_"])
+    G.run_kani_slow(rp, tier, seed)
+    G.run_capacity(rp)
+    rp.bounds += ["scalar kernels: MIR built with -C debug-assertions=on -C overflow-checks=on (default and compact); valid significands "
+                  "(w < 10^19 where digits were truncated); classes as in C11 (quick: lz=0 for every q + seeded 15% of the boundary set)",
+                  "digit loops: Kani (dev profile semantics) at the shapes of C06; strings longer than that are outside the solver claim",
+                  "big-integer capacity: ground bound from the constants in the MIR (BIGINT_BITS, MAX_DIGITS, exponent range); the bit-length "
+                  "abstraction behind it is a written argument"]
+    rp.assumptions += ["NOT decided (listed in undecided_baseline.json, reported as outside the claim): whether Eisel-Lemire's all-ones fallback "
+                       "leaf is reachable for decimal exponents so small that round()'s debug_assert!(shift <= 65) would fire in a debug build "
+                       "- a Diophantine condition (102 consecutive one-bits of w*T) no solver here decides; release builds are unaffected "
+                       "(the numeric decline contract is proved for those leaves)"]
+    return rp.finish("other", COMPOSITION)
+
+
+def check_C05(tier, seed):
+    rp = Report("C05", tier, seed)
+    rp.trusted.update(BASE_TRUST + KANI_TRUST + COMP_TRUST)
+    # same classes through both moderate-path implementations: each is proved equal to RN, hence to each other
+    cls = {f: _classes_subset(f, tier, seed, 0.15) for f in ("f64", "f32")}
+    G.run_lemire(rp, tier, seed, classes=None if tier == "thorough" else cls)
+    bc = {f: G.bell_classes(f, tier, seed) for f in ("f64", "f32")}
+    G.run_bell(rp, tier, seed, classes=bc if tier == "thorough" else {f: v[::2] for f, v in bc.items()})
+    G.run_tables(rp)
+    # the two vector back-ends against the same reference model
+    G.run_kani_vec(rp, "quick", seed, ["C13"], config="alloc")
+    if tier == "thorough":
+        G.run_kani_vec(rp, "quick", seed, ["C12"], config="alloc")
+        G.run_kani_vec(rp, "quick", seed, ["C12"], config="compact")
+    rp.bounds += ["configurations differ in three places: moderate path (Eisel-Lemire vs Bellerophon: both proved equal to RN on the same "
+                  "classes), vector back-end (StackVec vs HeapVec: both proved against the same reference model), power source (tables "
+                  "vs on-demand: tables decided; std's powf is FFI and outside the technique)",
+                  "pow with / without the 5^135 step: decomposition harness (C12) in both configurations (thorough)"]
+    return rp.finish("other", COMPOSITION)
+
+
+def check_C08(tier, seed):
+    rp = Report("C08", tier, seed)
+    rp.trusted.update(KANI_TRUST + BASE_TRUST)
+    G.run_kani_parse(rp, tier, seed, ["any"], accept_panics=True)
+    G.run_kani_vec(rp, tier, seed, ["C13", "C12"])
+    if tier == "thorough":
+        G.run_kani_vec(rp, "quick", seed, ["C13", "C12"], config="alloc")
+    G.run_fast_path(rp, tier, seed)
+    G.run_tables(rp, configs=("default",))
+    rp.bounds += ["digit loops with ARBITRARY bytes (all 256 values, leading/trailing zeros) at shapes up to 40 bytes: Kani's pointer, bounds and "
+                  "unsafe-precondition checks must all pass; clean panics are accepted (filtered by check class)",
+                  "all unsafe code of the vectors / big integers (push/extend/resize_unchecked, set_len, shl_limbs' ptr::copy + write_bytes, "
+                  "from_raw_parts in Deref) at every enumerated length with symbolic contents",
+                  "get_unchecked table lookups: index-in-range obligations in the fast path (E1) and in the digit loop (Kani); table sizes (E3)",
+                  "uninitialised-memory checks are not available in Kani 0.68; reads of never-written slots show up as nondeterministic values"]
+    return rp.finish("other", "Kani memory-safety checks over unconstrained input + E1 index obligations for unchecked table lookups.")
+
+
+def check_C15(tier, seed):
+    rp = Report("C15", tier, seed)
+    rp.trusted.update(KANI_TRUST)
+    G.run_forbid_alloc(rp, tier, seed)
+    rp.bounds += ["every harness of the digit loops, big-integer primitives and slow-path glue is re-run in the default configuration (no `alloc` "
+                  "feature) with the global allocator entry point stubbed by a panicking function: any path that allocates fails",
+                  "a vacuity twin that deliberately allocates must FAIL under the same stub",
+                  "syntactic side condition (assumption, not verdict): no call in the non-alloc MIR targets alloc::/std::vec/std::string/format"]
+    return rp.finish("other", "Kani with `alloc::alloc::alloc` replaced by a failing stub in all non-alloc harnesses.")
+
+
 PROPS = {
+    "C01": check_C01,
+    "C02": check_C02,
+    "C03": check_C03,
+    "C04": check_C04,
+    "C05": check_C05,
+    "C06": check_C06,
+    "C07": check_C07,
+    "C08": check_C08,
+    "C09": check_C09,
+    "C10": check_C10,
     "C11": check_C11,
+    "C12": check_C12,
+    "C13": check_C13,
+    "C14": check_C14,
+    "C15": check_C15,
+    "C16": check_C16,
     "C17": check_C17,
     "C18": check_C18,
+    "C19": check_C19,
 }
 
 
